@@ -21,6 +21,7 @@ def compare(vec, line, v, what):
     def rep(kind, desc):
         v.violation("%s kind=%s" % (key, kind), desc, {"vector": vec, "observed": {"status": status, "ret": ret, "post": post}, "where": what})
         return False
+    if status == "skipped": return True
     if status.startswith("fault") or status.startswith("crash"):
         return rep("fault", "%s: builder faulted (%s) for len=%d id=%s" % (what, status, vec["len"], hexs(vec["id"])))
     ok = True
@@ -64,6 +65,7 @@ def finish(evs, outs, v):
         t = line.split()
         status, ret, post, canary = t[1], t[2], t[5], t[6]
         key = "can kind=%s op=%s" % (ev["kind"], ev["op"])
+        if status == "skipped": continue
         if status.startswith("fault") or status.startswith("crash"):
             v.violation(key + " kind=fault", "random builder call faulted (%s), len=%d" % (status, ev["len"]), {"event": ev}); continue
         if canary != "0":
